@@ -46,7 +46,7 @@ def splitLines : Str → List Str
 def joinLines : List Str → Str
   | [] => []
   | [l] => l
-  | l :: r => l ++ '\n' :: joinLines r
+  | l :: l2 :: r => l ++ '\n' :: joinLines (l2 :: r)
 
 /-- `max(0, x₁, x₂, …)` (the `max_length = max(max_length, …)` loops) -/
 def listMax : List Nat → Nat
@@ -145,6 +145,13 @@ structure ColOut where
   cells : Column
   deriving Repr, DecidableEq
 
+/-- the width handed to `_wrap_column` for a long column: the last long column
+(`remaining = 0`) gets what is left, the others their clamped share -/
+def assignWidth (share : Nat → Nat → Nat → Nat) (l av ac remaining : Nat) : Except Err Nat :=
+  if remaining = 0 then pure av
+  else if ac = 0 then throw (.other "ZeroDivisionError")
+  else pure (max 1 (min (share l ac av) (av - remaining)))
+
 /-- the "Fit columns into available width" loop of `_wrap_columns` (repaired distribution).
 `av` = `available_width`, `ac` = `actual_width`; `countLong r` is both `remaining_columns`
 after the decrement and the test `col == last_adapted_col` (no long column follows). -/
@@ -156,10 +163,7 @@ def distribute (share : Nat → Nat → Nat → Nat) :
     pure (⟨none, l, col⟩ :: r')
   | ((l, true), col) :: r, av, ac => do
     let remaining := countLong (r.map (·.1))
-    let w ←
-      if remaining = 0 then pure av
-      else if ac = 0 then throw (.other "ZeroDivisionError")
-      else pure (max 1 (min (share l ac av) (av - remaining)))
+    let w ← assignWidth share l av ac remaining
     let col' ← wrapColumn w col
     let len' := colLen col'
     let r' ← distribute share r (av - len') (ac - l)
